@@ -16,6 +16,11 @@ SURFS = [
 ]
 
 
+# a surface whose knot vectors are kept in their original (non-[0,1]) range
+RAW = {"deg": [2, 1], "kv": [[[0, 1]] * 3 + [[2, 1]] + [[3, 1]] * 3, [[1, 1], [1, 1], [2, 1], [2, 1]]], "size": [4, 2], "rat": False,
+       "P": [[[i, 1], [j, 1], [(i * j + i) % 3, 1]] for i in range(4) for j in range(2)]}
+
+
 def lattice(uv, su, sv):
     a, b = uv[0] * (su - 1), uv[1] * (sv - 1)
     ia, ib = round(a), round(b)
@@ -31,9 +36,11 @@ def check_tri(ctx, cs, meshes):
     su, sv, s = c["su"], c["sv"], o["s"]
     tg = ["tri", "spacing=%d" % s] + (["spacing>=3"] if s >= 3 else [])
     small = {"sample_size": [su, sv], "vertex_spacing": s}
-    for si, sh in enumerate(SURFS):
+    for si, sh in enumerate(SURFS + ([RAW] if (su, sv) in ((3, 3), (4, 5)) else [])):
         ctx.count(("tri", su, sv, s, si), sample={"op": "tri", **small, "n_tris": len(o["tris"])})
         site = "Surface.tessellate"
+        if sh is RAW:
+            tg = tg + ["raw_kv"]
         def run():
             obj = build(sh)
             obj.sample_size_u, obj.sample_size_v = su, sv
@@ -60,7 +67,7 @@ def check_tri(ctx, cs, meshes):
                 bad = True
                 break
             pos.append(p)
-            onsurf = obj.evaluate_single(list(v.uv))
+            onsurf = obj.evaluate_single(list(v.uv)) if sh is not RAW else list(v.data)
             if not (close_seq(list(v.data), onsurf) and close_seq(list(v.data), ev[p[1] + p[0] * sv])):
                 ctx.violate(site, tg + ["vertex_position"], small, {"uv": list(v.uv), "data": list(v.data), "surface_at_uv": onsurf})
                 bad = True
@@ -157,6 +164,103 @@ def check_trim(ctx, cs):
         ctx.violate("tessellate.TrimTessellate", tg + ["face_indices"], small, {"max": max(used), "vertices": len(V)})
 
 
+def check_exports(ctx, su, sv, s):
+    """OBJ / OFF / STL (ascii and binary) describe exactly the tessellated mesh, with per-surface vertex offsets"""
+    import struct, math
+    from geomdl import exchange, multi
+    tg = ["export", "spacing=%d" % s]
+    small = {"sample_size": [su, sv], "vertex_spacing": s}
+    for nsurf in (1, 2):
+        t2 = tg + ["container" if nsurf == 2 else "single"]
+        ctx.count(("export", su, sv, s, nsurf), sample={"op": "export", **small, "surfaces": nsurf})
+        try:
+            refs = []
+            for k in range(nsurf):
+                r = build(SURFS[k])
+                r.sample_size_u, r.sample_size_v = su, sv
+                r.tessellate(vertex_spacing=s)
+                refs.append(([list(v.data) for v in r.vertices], [list(f.vertex_ids) for f in r.faces]))
+            def target():
+                objs = [build(SURFS[k]) for k in range(nsurf)]
+                for o in objs:
+                    o.sample_size_u, o.sample_size_v = su, sv
+                if nsurf == 1:
+                    return objs[0]
+                c = multi.SurfaceContainer(objs)
+                c.sample_size_u, c.sample_size_v = su, sv
+                return c
+            allv = [v for V, F in refs for v in V]
+            allf, off = [], 0
+            for V, F in refs:
+                allf += [[i + off for i in f] for f in F]
+                off += len(V)
+            # OBJ
+            txt = exchange.export_obj_str(target(), vertex_spacing=s)
+            vs = [[float(x) for x in l.split()[1:]] for l in txt.splitlines() if l.startswith("v ")]
+            fs = [[int(x) - 1 for x in l.split()[1:]] for l in txt.splitlines() if l.startswith("f ")]
+            if not close_seq(vs, allv, 1e-12) or fs != allf:
+                ctx.violate("exchange.export_obj_str", t2, small, {"n_v": [len(vs), len(allv)], "n_f": [len(fs), len(allf)], "first_bad_face": next((i for i, (a, b) in enumerate(zip(fs, allf)) if a != b), None)})
+            # OFF
+            lines = exchange.export_off_str(target(), vertex_spacing=s).splitlines()
+            nv, nf = int(lines[1].split()[0]), int(lines[1].split()[1])
+            vs = [[float(x) for x in l.split()] for l in lines[2:2 + nv]]
+            fs = [[int(x) for x in l.split()[1:]] for l in lines[2 + nv:2 + nv + nf]]
+            if lines[0] != "OFF" or nv != len(allv) or nf != len(allf) or not close_seq(vs, allv, 1e-12) or fs != allf or any(l.split()[0] != "3" for l in lines[2 + nv:2 + nv + nf]):
+                ctx.violate("exchange.export_off_str", t2, small, {"counts": [nv, nf], "expected": [len(allv), len(allf)]})
+            # STL (ascii): one facet per triangle, vertices = triangle vertices, normal parallel to (v2 - v1) x (v3 - v2)
+            def facet_ok(nrm, tri):
+                a, b, c = tri
+                e1 = [b[i] - a[i] for i in range(3)]
+                e2 = [c[i] - b[i] for i in range(3)]
+                cr = [e1[1] * e2[2] - e1[2] * e2[1], e1[2] * e2[0] - e1[0] * e2[2], e1[0] * e2[1] - e1[1] * e2[0]]
+                ln = math.sqrt(sum(x * x for x in cr))
+                ln2 = math.sqrt(sum(x * x for x in nrm))
+                if ln < 1e-12:
+                    return True
+                if ln2 < 1e-12:
+                    return False
+                # same direction and orientation (any positive multiple of (v2 - v1) x (v3 - v2) is a facet normal)
+                return all(abs(cr[i] / ln - nrm[i] / ln2) < 1e-5 for i in range(3))
+            txt = exchange.export_stl_str(target(), vertex_spacing=s, binary=False)
+            L = [l.split() for l in txt.splitlines()]
+            normals = [[float(x) for x in l[2:]] for l in L if l[:2] == ["facet", "normal"]]
+            verts = [[float(x) for x in l[1:]] for l in L if l and l[0] == "vertex"]
+            tris = [verts[i:i + 3] for i in range(0, len(verts), 3)]
+            exp_tris = [[allv[i] for i in f] for f in allf]
+            if len(tris) != len(allf) or not close_seq(tris, exp_tris, 1e-12) or not all(facet_ok(n, t) for n, t in zip(normals, tris)):
+                ctx.violate("exchange.export_stl_str", t2 + ["ascii"], small, {"facets": [len(tris), len(allf)]})
+            raw = exchange.export_stl_str(target(), vertex_spacing=s, binary=True)
+            n = struct.unpack("<i", raw[80:84])[0]
+            ok = n == len(allf) and len(raw) == 84 + 50 * n
+            if ok:
+                for k in range(n):
+                    rec = struct.unpack("<12f", raw[84 + 50 * k:84 + 50 * k + 48])
+                    tri = [list(rec[3:6]), list(rec[6:9]), list(rec[9:12])]
+                    if not close_seq(tri, exp_tris[k], 1e-5) or not facet_ok(list(rec[0:3]), exp_tris[k]):
+                        ok = False
+                        break
+            if not ok:
+                ctx.violate("exchange.export_stl_str", t2 + ["binary"], small, {"facets": [n, len(allf)]})
+            # container tessellation: vertex / face ids are offset per surface
+            if nsurf == 2:
+                c = target()
+                c.tessellate(vertex_spacing=s)
+                # reference: the elements tessellated on their own at the sampling the container imposes on them (its delta)
+                cv, cf = [], 0
+                for k in range(nsurf):
+                    r = build(SURFS[k])
+                    r.delta = c.delta
+                    r.tessellate(vertex_spacing=s)
+                    cv += [list(v.data) for v in r.vertices]
+                    cf += len(r.faces)
+                vids = [v.id for v in c.vertices]
+                fids = [f.id for f in c.faces]
+                if vids != list(range(len(cv))) or not close_seq([list(v.data) for v in c.vertices], cv, 1e-12) or len(c.faces) != cf or fids != list(range(cf)):
+                    ctx.violate("multi.SurfaceContainer.tessellate", t2, small, {"vertex_ids": vids[:8], "n_faces": len(c.faces), "expected_faces": cf})
+        except Exception as e:
+            ctx.violate("exchange.export_*", t2 + ["raises"], small, {"exception": repr(e)[:300]})
+
+
 def validate_meshes(ctx, meshes):
     """code -> spec: TLC evaluates ValidTriangulation on every recorded mesh"""
     if not meshes:
@@ -204,6 +308,8 @@ def run(ctx):
             check_trim(ctx, cs)
     if len(ops) < 3:
         raise core.MachineryError("vacuous model: %s" % ops)
+    for su, sv, s in ((3, 4, 1), (5, 3, 2), (4, 7, 3)):
+        check_exports(ctx, su, sv, s)
     nv = validate_meshes(ctx, meshes) if meshes else 0
     ctx.traces = len(res.cases) + nv
     ctx.extra.update({"cases": ops, "meshes_validated_by_tlc": nv})
